@@ -18,8 +18,21 @@ def steps_robust(case, pick):
     if act in ("validity", "tolist"):
         steps[0]["want"] = FULLWANT
         return steps
+    if act == "slice":
+        # an integer index array is itself an input of the operation (Python passes the caller's int64 array, which
+        # NumpyArray::asslice wraps without copying): give it as a layout held in a register and digest it afterwards
+        extra = []
+        for k, it in enumerate(steps[1]["slice"]):
+            if it.get("k") == "arr" and "shape" not in it and pick([0, 1]) == 1:
+                reg = "ix%d" % k
+                extra.append({"op": "build", "dst": reg, "layout": {"c": "Numpy", "dt": "i64", "d": it["data"]},
+                              "want": ["digest"], "tag": "index"})
+                steps[1]["slice"][k] = {"k": "content", "layout": reg}
+        if extra:
+            steps[1]["pydispatch"] = 0
+            steps = [steps[0]] + extra + steps[1:] + [{"op": "digest", "src": e["dst"], "tag": "index-after:" + e["dst"]} for e in extra]
     for st in steps:
-        if st.get("op") == "build":
+        if st.get("op") == "build" and st.get("tag") != "index":
             st["want"] = ["json", "type", "valid", "digest"]
         elif st.get("dst") == "r":
             st["want"] = ["json", "type", "valid", "tostring", "form", "digest"]
@@ -37,7 +50,7 @@ def _ordinary(r):
     return r.get("ok") == 0 and r.get("exc") in ORDINARY
 
 
-def judge_robust(case, res):
+def judge_robust(case, res, steps=None):
     act = case["act"]
     if not res:
         return "no result"
@@ -50,6 +63,17 @@ def judge_robust(case, res):
     if act in ("validity", "tolist"):
         return None
     opi = 2 if act in ("concat", "setfield") else 1
+    if steps is not None:
+        nidx = sum(1 for st in steps if st.get("tag") == "index")
+        if nidx:
+            before = {st["dst"]: res[k].get("digest") for k, st in enumerate(steps) if st.get("tag") == "index"}
+            for k, st in enumerate(steps):
+                if str(st.get("tag", "")).startswith("index-after:") and k < len(res):
+                    if res[k].get("ok") == 1 and res[k].get("digest") != before.get(st["src"]):
+                        return "the integer array used as an index was modified by the operation"
+            # drop the index bookkeeping so that the positional logic below sees the usual shape
+            keep = [k for k, st in enumerate(steps) if st.get("tag") != "index" and not str(st.get("tag", "")).startswith("index-after:")]
+            res = [res[k] for k in keep if k < len(res)]
     if len(res) <= opi + 1:
         return "missing op result"
     r = res[opi]
@@ -201,6 +225,7 @@ def judge_history(case, res, steps):
 
 
 judge_history.wants_steps = True
+judge_robust.wants_steps = True
 
 
 def judge_nocrash(case, res):
